@@ -84,7 +84,7 @@ func evCorrespond(driver string, cases []evCorrCase, res *Result) error {
 			res.Disagreements = append(res.Disagreements, Disagreement{Kind: "adapter-vs-model-Impl", Case: c.Index, Op: lines[i], Impl: c.Out.Adapter[p.l], Model: im, Ops: c.Out.Lines[:p.l+1]})
 			continue
 		}
-		if p.l == c.Out.DiffAt && c.Out.Sig == "precondition:subbalance-underflow" {
+		if p.l == c.Out.DiffAt && (c.Out.Sig == "precondition:subbalance-underflow" || c.Out.Sig == "excluded:code-equals-deletion-marker") {
 			continue // go-ethereum lets the balance go negative; both models refuse like the adapter
 		}
 		if rf != c.Out.Geth[p.l] {
@@ -107,7 +107,8 @@ func evCountGuard(res *Result, gk string, caseNo int, op string, ops []string) {
 		res.Counters["guard:lines-inside"]++
 	case "-":
 		res.Counters["guard:lines-after-a-failed-guard"]++
-	case "THEOREM-VIOLATED":
+	case "THEOREM-VIOLATED", "PANIC-NOT-SHARED", "INVARIANT-BROKEN:dirty-slot-without-origin":
+		// what Props/C16.lean proves of the model, observed on the executable model: a mismatch is a bug of ours
 		res.Disagreements = append(res.Disagreements, Disagreement{Kind: "model-Impl-vs-model-Ref-inside-guards", Case: caseNo, Op: op, Impl: "", Model: gk, Ops: ops})
 	default:
 		res.Distribution["guard-first-failure:"+gk]++
